@@ -441,6 +441,33 @@ def run_legacy(ctx, name, factory, N, Nb, seed, expected_ret, method="sample"):
     ctx.traces += 1
 
 
+def run_legacy_repeat(ctx, name, factory, seed):
+    """Stateless interface, one object used twice: every call begins again with the initial point, and (no adaptation)
+    the same random stream gives the same chain - nothing is carried over from the previous call."""
+    from cuqiverif.zoo import quiet
+    case = {"kind": "legacy_repeat", "sampler": name, "seed": seed}
+    try:
+        with quiet():
+            smp = factory(callback=None)
+            x0 = np.array(smp.x0, dtype=float, copy=True).reshape(-1)
+            np.random.seed(seed)
+            a = _cols(smp.sample(4, 1).samples)
+            np.random.seed(seed)
+            b = _cols(smp.sample(4, 1).samples)
+            np.random.seed(seed + 1)
+            c = _cols(smp.sample(3, 0).samples)
+    except Exception as ex:
+        ctx.observations.setdefault("legacy_errors", {})["%s/repeat" % name] = "%s: %s" % (type(ex).__name__, str(ex)[:100])
+        return
+    ctx.case(("legacy_repeat", name))
+    if name not in ADAPTS_IN_SAMPLE and (a.shape != b.shape or not np.allclose(a, b, rtol=RTOL, atol=1e-12)):
+        ctx.mismatch("legacy/%s/sample/repeat" % name, case, "a second sample() call on the same object with the same random stream "
+                     "gives another chain (state carried over between calls of the stateless interface)", a, b)
+        return
+    if name != "CWMH" and not _eq(c[:, 0], x0):       # legacy CWMH: known finding C14-F1 (judged in run_legacy)
+        ctx.mismatch("legacy/%s/sample/repeat_initial" % name, case, "a later sample() call does not begin with the initial point", x0, c[:, 0])
+
+
 # ----------------------------------------------------------------------------------------------------------
 # code -> spec: recorded executions validated by TLC against TraceSamplerLife.tla
 # ----------------------------------------------------------------------------------------------------------
@@ -685,6 +712,7 @@ def run(ctx):
             for c in legacy:
                 e = c["prog"][0]
                 run_legacy(ctx, name, fac, e["n"], e["nb"], 2000 + ctx.seed, e["ret"], "sample")
+            run_legacy_repeat(ctx, name, fac, 2100 + ctx.seed)
             for (N, Nb) in ((10, 0), (10, 3), (12, 5)):
                 run_legacy(ctx, name, fac, N, Nb, 2000 + ctx.seed, list(range(Nb, N + Nb)), "sample_adapt")
         ctx.sample({"sampler": "legacy MH", "behaviour": legacy[-1]})
